@@ -45,7 +45,11 @@ fn alphabet(spec: &Spec) -> Vec<f64> {
 fn shape_saturation<T: Scalar>(spec: &Spec, st: &mut Stats, sink: &Sink) {
     let w = spec.total_n();
     let warm = 2 * w + 8;
-    let total = 2 * warm + 16;
+    // A bounded buffer may fluctuate below its bound (a monotonic candidate deque fed by an
+    // IIR filter never becomes periodic), so growth is judged against the early maximum plus
+    // the total window length; the run is long enough for a leak of one slot per cycle
+    // (period <= 3) to outgrow that allowance.
+    let total = warm + 3 * (w + 24);
     let alpha = alphabet(spec);
     st.configs += 1;
     for cyc in cycles(&alpha, 3) {
@@ -63,7 +67,7 @@ fn shape_saturation<T: Scalar>(spec: &Spec, st: &mut Stats, sink: &Sink) {
                     // a bounded buffer may legitimately fluctuate (e.g. a monotonic
                     // candidate deque): compare against the maximum, not a point
                     at_warm = (at_warm.0.max(s.0), s.1);
-                } else if s.0 > at_warm.0 + at_warm.1 && worst.is_none() {
+                } else if s.0 > at_warm.0 + at_warm.1 + w && worst.is_none() {
                     worst = Some((i, s.0));
                 }
             }
@@ -182,7 +186,7 @@ pub fn run(ctx: &Ctx) -> CheckOutput {
                 let mut st = Stats::default();
                 let sink = Sink::new();
                 shape_saturation::<f64>(&spec, &mut st, &sink);
-                JobOut { stats: st, viols: sink.take(), samples: vec![json!({"clause":"state-grows","view":spec.name(),"driver":"every cycle of period<=3, 4W+32 steps"})] }
+                JobOut { stats: st, viols: sink.take(), samples: vec![json!({"clause":"state-grows","view":spec.name(),"driver":"every cycle of period<=3, 5W+80 steps"})] }
             }));
         }
         let spec = spec.clone();
@@ -201,7 +205,7 @@ pub fn run(ctx: &Ctx) -> CheckOutput {
         stats: o.stats,
         violations: o.viols,
         samples: o.samples,
-        rule: "every view (all secondary-parameter variants) x N, every two-level chain: (a) scalar slots in the Debug rendering of the real structs along every cycle of period<=3 must stop growing after 2W+8 updates; (b) counting global allocator: live bytes after L and 4L updates for every cycle of period<=2".into(),
+        rule: "every view (all secondary-parameter variants) x N, every two-level chain: (a) scalar slots in the Debug rendering of the real structs along every cycle of period<=3 must not exceed their maximum over the first 2W+8 updates by more than the total window length W during the following 3(W+24) updates; (b) counting global allocator: live bytes after L and 4L updates for every cycle of period<=2".into(),
         assumptions: vec!["'endless' is decided up to 4L updates; the driver set is exhaustive over the alphabet cycles".into()],
         exhaustive: true,
         bounds: json!({"L": l, "N": if quick {"1,2,3,5,16"} else {"1,2,3,5,8,16,64"}}),
